@@ -320,6 +320,14 @@ func (m *mon) commentsJob(cases []commentCase) func(j job) outcome {
 		P := sqlparser.String(tS)
 		o.sample = map[string]interface{}{"dialect": dn, "class": class.String(), "statement": cc.text, "as_database_reads_it": R, "printed": P}
 		tP, err := parser.Parse(P)
+		if err != nil && m.knownPrinterDifference(tR) {
+			// the comment-free statement itself does not survive print + parse: a defect of the printer that has nothing
+			// to do with comments; it is judged by the round-trip oracles (1)-(3) on R and reported under their signatures
+			o.count("comments_base_statement_does_not_round_trip_judged_by_roundtrip_oracles")
+			ro := m.roundTrip(job{kind: "roundtrip", origin: "comments-stripped", text: R, tag: "comments-stripped"})
+			o.findings = append(o.findings, ro.findings...)
+			return
+		}
 		if err != nil {
 			o.violate(fmt.Sprintf("comments(B) re-serialised text does not parse: dialect=%s %s", dn, class), det(map[string]interface{}{"printed": P, "error": err.Error()}))
 			return
@@ -333,6 +341,8 @@ func (m *mon) commentsJob(cases []commentCase) func(j job) outcome {
 				return
 			} else {
 				o.count("comments_base_statement_does_not_round_trip_judged_by_roundtrip_oracles")
+				ro := m.roundTrip(job{kind: "roundtrip", origin: "comments-stripped", text: R, tag: "comments-stripped"})
+				o.findings = append(o.findings, ro.findings...)
 				return
 			}
 		}
